@@ -12,7 +12,8 @@
     L1Norm.prox                       → `l1Prox1` / `l1Prox` ; complex `l1ProxC1`   (phase = v/|v|, 1 at 0)
     SquaredL2Norm.prox                → `sqL2Prox`
     L2Norm.prox                       → `l2Prox`              (`norm_v == 0` test, `max(1-lam/‖v‖,0)`)
-    L21Norm.prox                      → `l21Prox`             (groups given by a labelling `grp`)
+    L21Norm.prox                      → `l21Prox`             (groups given by a labelling `grp`; the labelling of
+                                        `l2_axis` on an N-d array is `axisGroup shape (normAxes nd l2_axis)`, of a block array `blockGroup sizes`)
     HuberNorm._prox_sep / _prox_nonsep→ `huberSepProx1`, `huberSepProxC1`, `huberNonsepProx`
     L1MinusL2Norm.prox                → `l1l2Prox`, complex `l1l2ProxC` (the four `where` branches, first arg-max)
     NuclearNorm.prox (on svdS)        → `nuclearSvProx`; with the SVD factors: `nuclearProx U s Vh` (= U diag(..) Vh)
@@ -461,5 +462,32 @@ def absLossGuard (w : WArg) (a : AArg) (yNonneg : Bool) : Guard :=
   wGuard w (match a with
     | .none | .identity => if yNonneg then .hasProxClosed else .noProx
     | _ => .noProx)
+
+/-! ### `L21Norm(l2_axis=...)`: which entries of an N-d array (or of a block array) form one L2 group -/
+
+/-- index along axis `d` of the flat (row-major) index `i` in an array of shape `shape` (`np.unravel_index`) -/
+def unravelAt (shape : List Nat) (i d : Nat) : Nat :=
+  (i / (shape.drop (d + 1)).prod) % shape.getD d 1
+
+/-- the axes that `L21Norm(l2_axis=axes)` does NOT reduce over, in increasing order -/
+def keptAxes (nd : Nat) (axes : List Nat) : List Nat := (List.range nd).filter (fun d => !axes.contains d)
+
+/-- label of the L2 group of flat entry `i` for `L21Norm(l2_axis=axes)` on an array of shape `shape`:
+    the mixed-radix number of the indices along the kept axes (`sum(axis=axes, keepdims=True)` puts two entries into the same
+    group iff they agree along every kept axis — theorem `axisGroup_eq_iff`) -/
+def axisGroup (shape : List Nat) (axes : List Nat) (i : Nat) : Nat :=
+  (keptAxes shape.length axes).foldl (fun acc d => acc * shape.getD d 1 + unravelAt shape i d) 0
+
+/-- `l2_axis` as given by the user (`None` ↦ all axes, negative values count from the end) -/
+def normAxes (nd : Nat) (axes : Option (List Int)) : List Nat :=
+  match axes with
+  | none => List.range nd
+  | some l => l.map (fun a => (a % (nd : Int)).toNat)
+
+/-- block number of flat entry `i` of a `BlockArray` whose blocks have `sizes` entries -/
+def blockGroup : List Nat → Nat → Nat
+  | [], _ => 0
+  | s :: rest, i => if i < s then 0 else 1 + blockGroup rest (i - s)
+
 
 end Scico.Prox
